@@ -2,7 +2,10 @@
  * RFC 9110 7.6.1 / 5.6.1: Connection = #connection-option; list elements are separated by commas and optional whitespace (OWS = SP / HTAB);
  * connection options are case-insensitive tokens. Written from the RFC as byte values (44 ',', 32 SP, 9 HTAB).
  * Style: ONE short-circuit guard (q.n > 0), then bitwise connectives over clamped reads (nested && around dereferences multiply the formula). */
-#define RDQ(q, i) ((q).p[(i) < (q).n ? (i) : 0])
+/* std::string keeps a terminating NUL: data()[size()] is readable. The views are therefore objects of n+1 bytes and every clamped read below
+ * is in bounds even for n == 0 - the spec macros need NO short-circuit guard at all (pure bitwise connectives). */
+#define RDQ(q, i) ((q).p[(i) <= (q).n ? (i) : 0])
+#define IMPB(a, b) ((!(a)) | (b))
 #define CIEQ(c, l) (((c) == (char)(l)) | ((c) == (char)((l) - 32)))                 /* ASCII case-insensitive match of a lower-case letter */
 #define CLOSE_BYTES(q, a) (CIEQ(RDQ(q, a), 99) & CIEQ(RDQ(q, (a) + 1), 108) & CIEQ(RDQ(q, (a) + 2), 111) & CIEQ(RDQ(q, (a) + 3), 115) & CIEQ(RDQ(q, (a) + 4), 101))
 #define KA_BYTES(q, a) (CIEQ(RDQ(q, a), 107) & CIEQ(RDQ(q, (a) + 1), 101) & CIEQ(RDQ(q, (a) + 2), 101) & CIEQ(RDQ(q, (a) + 3), 112) & (RDQ(q, (a) + 4) == (char)45) \
@@ -10,22 +13,37 @@
 #define SEGSTART(q, s) (((s) == 0) | (RDQ(q, (s) == 0 ? 0 : (s) - 1) == (char)44))       /* list element starts at the beginning or right after a comma */
 #define SEGEND(q, e) (((e) == (q).n) | (RDQ(q, e) == (char)44))                           /* ... and ends at the end or right before a comma */
 /* "every byte of [s,a) and of [a+L,e) is OWS", instantiated at the index t */
-#define OWS_AROUND(q, s, a, e, L, t) ((!(((s) <= (t)) & ((t) < (a))) | V_OWS(RDQ(q, t))) & (!(((a) + (L) <= (t)) & ((t) < (e))) | V_OWS(RDQ(q, t))))
+#define OWS_AROUND(q, s, a, e, L, t) (IMPB(((s) <= (t)) & ((t) < (a)), V_OWS(RDQ(q, t))) & IMPB(((a) + (L) <= (t)) & ((t) < (e)), V_OWS(RDQ(q, t))))
 #define TOK_SHAPE(q, s, a, e, L) (((s) <= RRC_MAXLEN) & ((a) <= RRC_MAXLEN) & ((e) <= RRC_MAXLEN) & ((s) <= (a)) & (SAT(a) + (L) <= (e)) & ((e) <= (q).n) & SEGSTART(q, SAT(s)) & SEGEND(q, SAT(e)))
 /* HYPOTHESIS form of "the list element [s,e) is OWS* token OWS* with the token at a": the universal part is instantiated at the three search
  * results of the iteration that handled s (weaker hypothesis => stronger clause; implies the clause with the real universal) */
-#define TOKH(q, s, a, e, L, BYTES) ((q).n > 0 && (TOK_SHAPE(q, s, a, e, L) & BYTES(q, SAT(a)) \
-   & OWS_AROUND(q, SAT(s), SAT(a), SAT(e), L, G_snap_e) & OWS_AROUND(q, SAT(s), SAT(a), SAT(e), L, G_snap_a) & OWS_AROUND(q, SAT(s), SAT(a), SAT(e), L, G_snap_b)))
+#define TOKH(q, s, a, e, L, BYTES) (TOK_SHAPE(q, s, a, e, L) & BYTES(q, SAT(a)) \
+   & OWS_AROUND(q, SAT(s), SAT(a), SAT(e), L, G_snap_e) & OWS_AROUND(q, SAT(s), SAT(a), SAT(e), L, G_snap_a) & OWS_AROUND(q, SAT(s), SAT(a), SAT(e), L, G_snap_b))
 /* CONCLUSION form: the universal part is proved at the arbitrary ghost index GQ (i.e. for every index) */
-#define WITTOK(q, s, a, e, L, BYTES) ((q).n > 0 && (TOK_SHAPE(q, s, a, e, L) & BYTES(q, SAT(a)) & OWS_AROUND(q, SAT(s), SAT(a), SAT(e), L, GQ)))
+#define WITTOK(q, s, a, e, L, BYTES) (TOK_SHAPE(q, s, a, e, L) & BYTES(q, SAT(a)) & OWS_AROUND(q, SAT(s), SAT(a), SAT(e), L, GQ))
 
 #define RRC_GHOSTS G_cur_is_GS, G_snap_e, G_snap_a, G_snap_b, G_w_pos, G_w_end, G_tok_a, G_tok_n, G_ka_valid, G_ka_pos, G_ka_end, G_ka_a
 
-/* loop 1 of responseRequestsClose: the walk over the comma-separated list. pos is always the start of a list element. */
+/* loop 1 of responseRequestsClose: the walk over the comma-separated list. pos is always the start of a list element.
+ * The invariant is assembled per proof (-DRRC_J2 / -DRRC_J3 / -DRRC_J4): each proof carries only the clauses its postcondition needs
+ * (all of them together exceed the solver budget: ~150 symbolic reads of one array). J1 + variant are in every proof. */
+#ifdef RRC_J2
+#define RRC_INV_J2 __CPROVER_loop_invariant(GS < pos ==> !TOKH(*value, GS, GA, GE, 5, CLOSE_BYTES))
+#else
+#define RRC_INV_J2
+#endif
+#ifdef RRC_J3
+#define RRC_INV_J3 __CPROVER_loop_invariant((!sawKeepAlive && GS < pos) ==> !TOKH(*value, GS, GA, GE, 10, KA_BYTES))
+#else
+#define RRC_INV_J3
+#endif
+#ifdef RRC_J4
+#define RRC_INV_J4 __CPROVER_loop_invariant(sawKeepAlive ==> (G_ka_valid & WITTOK(*value, G_ka_pos, G_ka_a, G_ka_end, 10, KA_BYTES)))
+#else
+#define RRC_INV_J4
+#endif
 #define IORA_LOOP_HttpClient_responseRequestsClose_1 IORA_LC( \
   __CPROVER_assigns(pos, sawKeepAlive, RRC_GHOSTS) \
-  __CPROVER_loop_invariant(pos <= value->n && (pos == 0 || value->p[pos - 1] == (char)44)) \
-  __CPROVER_loop_invariant(GS < pos ==> !TOKH(*value, GS, GA, GE, 5, CLOSE_BYTES)) \
-  __CPROVER_loop_invariant((!sawKeepAlive && GS < pos) ==> !TOKH(*value, GS, GA, GE, 10, KA_BYTES)) \
-  __CPROVER_loop_invariant(sawKeepAlive ==> (G_ka_valid && WITTOK(*value, G_ka_pos, G_ka_a, G_ka_end, 10, KA_BYTES))) \
+  /* J1 */ __CPROVER_loop_invariant((pos <= value->n) & SEGSTART(*value, pos <= value->n ? pos : 0)) \
+  RRC_INV_J2 RRC_INV_J3 RRC_INV_J4 \
   __CPROVER_decreases(value->n - pos))
